@@ -252,6 +252,9 @@ static int child_main(int argc, char** argv) {
   ::_exit(n);
 }
 
+static std::atomic<bool> quiesce_sigthread{false};
+static std::atomic<bool> sigthread_quiet{false};
+
 static void worker(const std::string self, std::vector<Plan> plans, pthread_barrier_t* bar) {
   if (mode != 'B') {
     sigset_t chld;
@@ -296,7 +299,14 @@ static void worker(const std::string self, std::vector<Plan> plans, pthread_barr
       ++progress;
     }
     pthread_barrier_wait(bar);
-    // managers are destroyed only when every command of every thread is over
+    // managers are destroyed only when every command of every thread is over and, in mode A, once
+    // the dedicated thread has stopped taking SIGCHLD: a late SIGCHLD handled while the managers are
+    // being destroyed makes SignalManager::treatAction call a handler that removeHandler has just
+    // deleted (use-after-free of the code under test at tear-down, not a question of exit status)
+    if (mode == 'A') {
+      quiesce_sigthread = true;
+      while (!sigthread_quiet.load()) ::usleep(200);
+    }
   }
 }
 
@@ -334,7 +344,17 @@ int main(int argc, char** argv) {
   hook_rng = static_cast<unsigned long long>(std::atoll(argv[5])) * 2654435761ULL + 12345ULL;
   if (mode == 'A') {
     sigthread = std::thread([&stop_sig] {
-      while (!stop_sig.load()) ::usleep(2000);  // SIGCHLD is delivered here
+      while (!stop_sig.load()) {
+        ::usleep(2000);  // SIGCHLD is delivered here
+        if (quiesce_sigthread.load() && !sigthread_quiet.load()) {
+          // every command is over: no handler is running in this thread at this point, none will
+          sigset_t chld;
+          sigemptyset(&chld);
+          sigaddset(&chld, SIGCHLD);
+          pthread_sigmask(SIG_BLOCK, &chld, nullptr);
+          sigthread_quiet = true;
+        }
+      }
     });
   }
   if (mode != 'B') {
